@@ -11,7 +11,7 @@ const SPEC: Spec = Spec {
         "refint (schoolbook add/sub on u64 limbs) is trusted; it is cross-checked against Python int on a transcript slice",
         "x86_64 only: the 32-bit digit build and the non-x86 adc/sbb fallbacks are not exercised",
     ],
-    bounds_quick: "S1 Dense(S5,4)^2; S2 Runs(S5,2,12)^2; S3 block-boundary lengths {4,5,6,9,10,11,14,15,16,20,21}x{+0,+1,+5,+6} with Runs(S5,2,.); S4 dense LCG digit strings, all length pairs <= 24 x 3x3 family members; S5 scalar forms: Dense(S5,4)+Runs(S5,2,8) x 12 scalars (u32/u64/u128, +-i64/i128); S8 Dense(S16,2)^2 (16-letter half-digit alphabet); S7 long operands of 64..1100 digits (4 shapes each, all pairs); S6 (Dense(S5,3) + lengths 4..12 x 3 shapes)^2 through the in-place / owning forms on operands with spare buffer capacity",
+    bounds_quick: "S1 Dense(S5,4)^2; S2 Runs(S5,2,12)^2; S3 block-boundary lengths {4,5,6,9,10,11,14,15,16,20,21}x{+0,+1,+5,+6} with Runs(S5,2,.); S4 dense LCG digit strings, all length pairs <= 24 x 3x3 family members; S5 scalar forms: Dense(S5,4)+Runs(S5,2,8) x 390 scalars (every 2^k-1, 2^k, 2^k+1 for k < 128 and the type extremes; u32/u64/u128, +-i64/i128); S8 Dense(S16,2)^2 (16-letter half-digit alphabet); S7 long operands of 64..1100 digits (4 shapes each, all pairs); S6 (Dense(S5,3) + lengths 4..12 x 3 shapes)^2 through the in-place / owning forms on operands with spare buffer capacity",
     bounds_thorough: "S1 Dense(S5,4)^2; S2 Runs(S5,3,17)^2 (panicking forms on the Runs(S5,3,10) sub-square); S3 as quick with Runs(S5,3,.) for the shorter operand; S4 length pairs <= 48 x 7x7 family members; S5; S6 with lengths up to 24; S7 up to 4099 digits",
     hang_secs: 120,
     probes: Some(probes),
@@ -370,6 +370,15 @@ fn body(ctx: &mut Ctx) {
         let mut bigs: Vec<Vec<u64>> = alpha::dense(&alpha::SIGMA5, 4);
         bigs.extend(alpha::runs(&alpha::SIGMA5, 2, tier.pick(8, 12)).into_iter().filter(|d| d.len() > 4));
         let scal: Vec<u128> = vec![0, 1, 0xffff_ffff, 0x1_0000_0000, alpha::H as u128, alpha::M as u128, 1u128 << 64, (1u128 << 64) + 1, (alpha::M as u128) << 64, 1u128 << 127, u128::MAX - 1, u128::MAX];
+        // every 2^k-1, 2^k, 2^k+1 (thresholds of the one-digit / two-digit scalar paths are among them)
+        let mut scal = scal;
+        for k in 0..128u32 {
+            for t in [(1u128 << k) - 1, 1u128 << k, (1u128 << k).wrapping_add(1)] {
+                if !scal.contains(&t) {
+                    scal.push(t);
+                }
+            }
+        }
         for (i, d) in bigs.iter().enumerate() {
             if !ctx.mine(i as u64) {
                 continue;
